@@ -16,6 +16,11 @@
 (*                         instance, the positionals fixed by the partial  *)
 (*                         were counted against a parameter list that      *)
 (*                         still contained self                            *)
+(*   "posonly_unknown"     validate() did not know positional-only         *)
+(*                         parameters (accepted them by keyword)           *)
+(*   "posonly_partial_keyword"  a keyword FIXED BY A PARTIAL that has the  *)
+(*                         name of a positional-only parameter is still    *)
+(*                         taken for that parameter (the code as it is)    *)
 (***************************************************************************)
 EXTENDS ValidP
 
@@ -29,11 +34,15 @@ CONSTANTS Shapes,     \* shape ids (0..159)
           MAXK,       \* call: at most this many keywords
           Deviations
 
-P(n)  == [n |-> n, hd |-> FALSE, d |-> Dv]
-PD(n) == [n |-> n, hd |-> TRUE, d |-> Dv]
-Shape(i) ==
-  LET a   == i % 10
-      pos == CASE a = 0 -> <<>>
+P(n)  == [n |-> n, hd |-> FALSE, d |-> Dv, po |-> FALSE]
+PD(n) == [n |-> n, hd |-> TRUE, d |-> Dv, po |-> FALSE]
+\* ids 0..159: no positional-only parameter; 160..319: the same shapes with the FIRST parameter positional-only
+\* (def f(x, /, ...)); 320..479: ALL positional parameters positional-only (def f(x, y, z=1, /, ...))
+Shape(i0) ==
+  LET i   == i0 % 160
+      pom == i0 \div 160
+      a   == i % 10
+      pos0 == CASE a = 0 -> <<>>
                [] a = 1 -> <<P("x")>>
                [] a = 2 -> <<PD("x")>>
                [] a = 3 -> <<P("x"), P("y")>>
@@ -43,6 +52,7 @@ Shape(i) ==
                [] a = 7 -> <<P("x"), P("y"), PD("z")>>
                [] a = 8 -> <<P("x"), PD("y"), PD("z")>>
                [] OTHER -> <<PD("x"), PD("y"), PD("z")>>
+      pos == [x \in 1..Len(pos0) |-> IF (pom = 1 /\ x = 1) \/ pom = 2 THEN [pos0[x] EXCEPT !.po = TRUE] ELSE pos0[x]]
       va  == ((i \div 10) % 2) = 1
       b   == (i \div 20) % 4
       ko  == CASE b = 0 -> <<>> [] b = 1 -> <<P("k")>> [] b = 2 -> <<PD("k")>> [] OTHER -> <<P("k"), PD("j")>>
@@ -96,16 +106,27 @@ Validate(t, c) ==
       kwonly == IF "kwonly_unknown" \in Deviations THEN {} ELSE Names(sig.ko)
       named  == s.named
       namedS == ToSet(named)
-      kw     == ToSet(c.k)
-      pvarkw == ((pkw \ s.badkwds) \ s.badargs) \ kwonly
+      \* positional-only parameters cannot be given by keyword: a keyword of that name (in the call or fixed by a partial)
+      \* is one of the **kwds.  Deviation "posonly_unknown" (pinned behaviour): validate() treated them like any other name
+      poN    == IF "posonly_unknown" \in Deviations THEN {}
+                ELSE {sig.pos[x].n : x \in {y \in 1..Len(sig.pos) : IsPO(sig.pos[y])}}
+      own    == {sig.pos[x].n : x \in {y \in 1..Len(sig.pos) : sig.pos[y].hd}}     \* the function's own defaults
+      kw     == ToSet(c.k) \ poN               \* keywords that name a parameter
+      kwx    == ToSet(c.k) \cap poN            \* keywords that can only go to **kwds
+      \* the same for a keyword FIXED BY A PARTIAL: deviation "posonly_partial_keyword" (behaviour of the code as it is, a
+      \* recorded finding): signature() still marks the parameter as set by keyword
+      poNp   == IF "posonly_partial_keyword" \in Deviations THEN {} ELSE poN
+      badargs == s.badargs \ poNp
+      serr   == ((s.badkwds \cap pkw) \ poNp) # {}
+      pvarkw == ((pkw \ (s.badkwds \ poNp)) \ badargs) \ kwonly
       argskw == {named[x] : x \in 1..Min(Len(named), c.np)}
-      required == (namedS \cup kwonly) \ s.defaults
-  IN /\ ~s.err                                           \* signature(): the partial always fails
+      required == ((namedS \cup kwonly) \ s.defaults) \cup ((poNp \cap namedS) \ own)
+  IN /\ ~serr                                            \* signature(): the partial always fails
      /\ ~(pvarkw # {} /\ ~sig.vk)                        \* partial built for **kwds the function lacks
      /\ ~(pa > Len(sig.pos) /\ ~sig.va)                  \* partial built for *args the function lacks
      /\ ~(c.np > Len(named) /\ ~sig.va)                  \* too many positionals
-     /\ ~(((kw \ namedS) \ kwonly) # {} /\ ~sig.vk)      \* unexpected keyword
-     /\ s.badargs \cap argskw = {}                       \* positional for a parameter the partial fixed by keyword
+     /\ ~((((kw \ namedS) \ kwonly) \cup kwx) # {} /\ ~sig.vk)      \* unexpected keyword
+     /\ badargs \cap argskw = {}                         \* positional for a parameter the partial fixed by keyword
      /\ s.badkwds \cap kw = {}                           \* keyword for a parameter the partial fixed positionally
      /\ argskw \cap kw = {}                              \* duplicates
      /\ required \subseteq (kw \cup argskw)              \* all required provided
